@@ -748,6 +748,35 @@ def m_cursor_get_int(c, p):
     return v
 
 
+@model(r'^<(?:std::io::)?Cursor<.*> as (?:bytes::)?Buf>::(get_uint|get_int|get_uint_le|get_int_le)$')
+def m_cursor_get_nint(c, p, nbytes):
+    """bytes::Buf::get_uint / get_int: nbytes (1..8) big-endian (or little-endian) bytes, zero- / sign-extended to 64 bits."""
+    ip = c.ip
+    cur, data = cursor_parts(ip, p)
+    rem, pos = cursor_remaining(ip, cur, data)
+    n = nbytes.v if nbytes.concrete else concrete_int(ip, nbytes, 'get_uint width', 9)
+    if n > 8:
+        raise Panic(c.callee, 'nbytes > 8')
+    if rem < n:
+        raise Panic(c.callee, 'advance out of bounds: buffer too short (need %d, have %d)' % (n, rem))
+    bs = data[pos:pos + n]
+    if c.m.group(1).endswith('_le'):
+        bs = list(reversed(bs))
+    cur.fields[1] = BV(64, pos + n)
+    if n == 0:
+        return BV(64, 0)
+    v = bytes_to_int(bs, 8 * n)
+    if n == 8:
+        return v
+    signed = c.m.group(1).startswith('get_int')
+    if v.concrete:
+        x = v.v
+        if signed and x >> (8 * n - 1):
+            x -= 1 << (8 * n)
+        return BV(64, x & ((1 << 64) - 1))
+    return bv(64, (z3.SignExt if signed else z3.ZeroExt)(64 - 8 * n, v.z()))
+
+
 @model(r'^<(?:std::io::)?Cursor<.*> as (?:bytes::)?Buf>::(remaining|has_remaining)$')
 def m_cursor_remaining(c, p):
     ip = c.ip
